@@ -347,7 +347,10 @@ def _c20(ctx):
         f.rule = 'K4'
     x1, nthrow, ncatch = exc.rule_X1(ctx, SCOPES['C20'])
     x1.floor('throw sites', nthrow, FLOORS['C20']['throws'])
-    return [k, k4, cache.rule_K5(ctx), cache.rule_K6(ctx), cache.rule_T5(ctx), x1]
+    from .rules import geoidbounds
+    k7, nob, nund = geoidbounds.rule_K7(ctx)
+    k7.floor('obligation sites', nob, 12)
+    return [k, k4, cache.rule_K5(ctx), cache.rule_K6(ctx), cache.rule_T5(ctx), x1, k7]
 
 
 CHECKS = {
